@@ -260,6 +260,12 @@ enum Call {
     Transform,
 }
 
+#[derive(Clone, Debug, PartialEq)]
+enum Item {
+    C(Call),
+    Barrier,
+}
+
 fn parse_call(s: &str) -> Call {
     let mut it = s.split(':');
     let k = it.next().unwrap();
@@ -371,13 +377,14 @@ fn bview_res<E>(r: Result<u64, E>) -> String {
     }
 }
 
-fn give(slots: &Slots, a: usize, h: H, scripts_len: &[usize]) {
+/// first[a]: 0 = empty script, 1 = starts with a call, 2 = starts with a barrier
+fn give(slots: &Slots, a: usize, h: H, first: &[usize]) {
     *slots[a].lock().unwrap() = Some(h);
     rt().with(|st| {
-        st.agents[a].pending = if scripts_len[a] > 0 {
-            Pending::CallStart
-        } else {
-            Pending::Finished
+        st.agents[a].pending = match first[a] {
+            0 => Pending::Finished,
+            1 => Pending::CallStart,
+            _ => Pending::Barrier,
         };
     });
 }
@@ -402,10 +409,10 @@ macro_rules! poll_stream {
     }};
 }
 
-trait Item {
+trait PollItem {
     fn fin(self) -> String;
 }
-impl Item for P {
+impl PollItem for P {
     fn fin(self) -> String {
         self.check();
         let s = format!("ret:val:{:x}", self.ser);
@@ -413,12 +420,12 @@ impl Item for P {
         s
     }
 }
-impl Item for u64 {
+impl PollItem for u64 {
     fn fin(self) -> String {
         format!("ret:val:{:x}", self)
     }
 }
-fn poll_item<T: Item>(v: T, _owned: bool) -> String {
+fn poll_item<T: PollItem>(v: T, _owned: bool) -> String {
     v.fin()
 }
 
@@ -671,7 +678,7 @@ struct Scenario {
     wk: String,
     sf: usize,
     sy: usize,
-    scripts: Vec<(usize, Vec<Call>)>,
+    scripts: Vec<(usize, Vec<Item>)>,
     sched: Vec<(usize, u8)>,
     limit: usize,
 }
@@ -713,7 +720,10 @@ fn read_scenarios(path: &str) -> Vec<Scenario> {
             "limit" => cur.as_mut().unwrap().limit = w[1].parse().unwrap(),
             "script" => {
                 let a: usize = w[1].parse().unwrap();
-                let calls = w[2..].iter().map(|s| parse_call(s)).collect();
+                let calls = w[2..]
+                    .iter()
+                    .map(|s| if *s == "sync" { Item::Barrier } else { Item::C(parse_call(s)) })
+                    .collect();
                 cur.as_mut().unwrap().scripts.push((a, calls));
             }
             "sched" => {
@@ -843,11 +853,18 @@ fn snapshot_str(st: &State) -> String {
 
 fn run_scenario(sc: &Scenario, verbose: bool, out: &mut dyn Write) {
     let nag = sc.scripts.iter().map(|(a, _)| *a + 1).max().unwrap_or(2).max(2);
-    let mut scripts: Vec<Vec<Call>> = vec![Vec::new(); nag];
+    let mut scripts: Vec<Vec<Item>> = vec![Vec::new(); nag];
     for (a, cs) in &sc.scripts {
         scripts[*a] = cs.clone();
     }
-    let slen: Vec<usize> = scripts.iter().map(|s| s.len()).collect();
+    let slen: Vec<usize> = scripts
+        .iter()
+        .map(|s| match s.first() {
+            None => 0,
+            Some(Item::C(_)) => 1,
+            Some(Item::Barrier) => 2,
+        })
+        .collect();
     let listed: Vec<usize> = {
         let mut v: Vec<usize> = sc.scripts.iter().map(|(a, _)| *a).collect();
         v.sort();
@@ -898,10 +915,10 @@ fn run_scenario(sc: &Scenario, verbose: bool, out: &mut dyn Write) {
     *slots[1].lock().unwrap() = Some(rx);
     rt().with(|st| {
         for a in 0..2 {
-            st.agents[a].pending = if slen[a] > 0 {
-                Pending::CallStart
-            } else {
-                Pending::Finished
+            st.agents[a].pending = match slen[a] {
+                0 => Pending::Finished,
+                1 => Pending::CallStart,
+                _ => Pending::Barrier,
             };
         }
     });
@@ -925,10 +942,22 @@ fn run_scenario(sc: &Scenario, verbose: bool, out: &mut dyn Write) {
                     let r = catch_unwind(AssertUnwindSafe(|| {
                         rt().wait_for_baton();
                         let mut h = slots[a].lock().unwrap().take().expect("handle");
-                        for (i, call) in script.iter().enumerate() {
-                            if i > 0 {
+                        let mut have_grant = true;
+                        for item in script.iter() {
+                            let call = match item {
+                                Item::Barrier => {
+                                    if !have_grant {
+                                        rt().sched_point(Pending::Barrier);
+                                        have_grant = true;
+                                    }
+                                    continue;
+                                }
+                                Item::C(c) => c,
+                            };
+                            if !have_grant {
                                 rt().sched_point(Pending::CallStart);
                             }
+                            have_grant = false;
                             rt().with(|st| {
                                 st.agents[a].notified = false;
                                 st.emit(format!("start:{}", call_str(call)));
@@ -958,13 +987,49 @@ fn run_scenario(sc: &Scenario, verbose: bool, out: &mut dyn Write) {
     }
 
     writeln!(out, "scenario {}", sc.name).unwrap();
+    // index of the script item each agent is waiting at (controller's view)
+    let next_idx: std::cell::RefCell<Vec<usize>> = std::cell::RefCell::new(vec![0; nag]);
+    let seqmode = std::cell::Cell::new(false);
+    let release_barriers = || {
+        rt().with(|st| {
+            let quiet = listed.iter().all(|a| match st.agents[*a].pending {
+                Pending::NotBorn | Pending::CallStart | Pending::Barrier | Pending::Finished => true,
+                _ => false,
+            });
+            if !quiet {
+                return;
+            }
+            let waiting: Vec<usize> = listed.iter().cloned().filter(|a| st.agents[*a].pending == Pending::Barrier).collect();
+            let running = listed.iter().any(|a| st.agents[*a].pending == Pending::CallStart);
+            if !waiting.is_empty() && !running {
+                let mut ni = next_idx.borrow_mut();
+                for a in waiting {
+                    ni[a] += 1;
+                    st.agents[a].pending = if ni[a] < scripts[a].len() {
+                        Pending::CallStart
+                    } else {
+                        Pending::Finished
+                    };
+                }
+                seqmode.set(true);
+            }
+        });
+    };
     let mut steps = 0usize;
     let mut last: isize = -1;
     let mut isbad = false;
     let mut do_step = |a: usize, sp: bool, steps: &mut usize, last: &mut isize, isbad: &mut bool, out: &mut dyn Write| -> bool {
-        let en = rt().with(|st| a < st.agents.len() && Rt::enabled(st, a));
+        let (en, starting) = rt().with(|st| {
+            (
+                a < st.agents.len() && Rt::enabled(st, a),
+                a < st.agents.len() && st.agents[a].pending == Pending::CallStart,
+            )
+        });
         if !en {
             return false;
+        }
+        if starting {
+            next_idx.borrow_mut()[a] += 1;
         }
         let evs = rt().step(a, sp);
         *steps += 1;
@@ -987,7 +1052,8 @@ fn run_scenario(sc: &Scenario, verbose: bool, out: &mut dyn Write) {
         true
     };
     for (a, sp) in &sc.sched {
-        if isbad || steps >= sc.limit {
+        release_barriers();
+        if isbad || steps >= sc.limit || seqmode.get() {
             break;
         }
         do_step(*a, *sp == 1, &mut steps, &mut last, &mut isbad, out);
@@ -995,7 +1061,7 @@ fn run_scenario(sc: &Scenario, verbose: bool, out: &mut dyn Write) {
             loop {
                 let go = rt().with(|st| {
                     let mid = match st.agents[*a].pending {
-                        Pending::CallStart | Pending::Finished | Pending::NotBorn => false,
+                        Pending::CallStart | Pending::Finished | Pending::NotBorn | Pending::Barrier => false,
                         _ => true,
                     };
                     mid && Rt::enabled(st, *a)
@@ -1017,11 +1083,12 @@ fn run_scenario(sc: &Scenario, verbose: bool, out: &mut dyn Write) {
             outcome = "limit";
             break;
         }
+        release_barriers();
         let en: Vec<usize> = rt().with(|st| listed.iter().cloned().filter(|a| Rt::enabled(st, *a)).collect());
         if en.is_empty() {
             let fin = rt().with(|st| {
                 listed.iter().all(|a| match st.agents[*a].pending {
-                    Pending::Finished | Pending::NotBorn | Pending::CallStart => true,
+                    Pending::Finished | Pending::NotBorn | Pending::CallStart | Pending::Barrier => true,
                     _ => false,
                 })
             });
@@ -1030,6 +1097,21 @@ fn run_scenario(sc: &Scenario, verbose: bool, out: &mut dyn Write) {
         }
         let a = en.iter().cloned().find(|a| (*a as isize) > last).unwrap_or(en[0]);
         do_step(a, false, &mut steps, &mut last, &mut isbad, out);
+        if seqmode.get() {
+            loop {
+                let go = rt().with(|st| {
+                    let mid = match st.agents[a].pending {
+                        Pending::CallStart | Pending::Finished | Pending::NotBorn | Pending::Barrier => false,
+                        _ => true,
+                    };
+                    mid && Rt::enabled(st, a)
+                });
+                if !go || isbad || steps >= sc.limit {
+                    break;
+                }
+                do_step(a, false, &mut steps, &mut last, &mut isbad, out);
+            }
+        }
     }
     // end of scenario: release every thread, drop what is left
     rt().with(|st| {
